@@ -979,7 +979,7 @@ def stage_C(ctx: Any) -> None:
         ctx.add("evaluations", len(exprs))
         ctx.cov["self_correspondence_cases"] = len(exprs)
     # ---- (2) driven Errors vs model
-    n = ctx.n(900, 12000)
+    n = ctx.n(900, 5000)
     cases = [gen_case(rng, codes_mod, E.original_error_codes) for _ in range(n)]
     exprs = []
     impls = []
@@ -1076,7 +1076,7 @@ def stage_S(ctx: Any, verdict: str) -> None:
     jobs = corpus(vlib.REPO)
     ctx.cov["corpus_programs"] = len(jobs)
     rng.shuffle(jobs)
-    jobs = jobs[: int(os.environ.get("VERIF_C13_PROGRAMS", ctx.n(400, 100000)))]
+    jobs = jobs[: int(os.environ.get("VERIF_C13_PROGRAMS", ctx.n(400, 3000)))]
     for k, j in enumerate(jobs):
         j["seed"] = f"{ctx.seed}/{j['name']}"
         j["max_variants"] = ctx.n(6, 12)
